@@ -14,6 +14,7 @@ import (
 	"fmt"
 	"math"
 	"os"
+	"runtime"
 	"strings"
 	"testing"
 	"time"
@@ -155,6 +156,7 @@ type Chain struct {
 	Fin     string   `json:"fin"`     // Msg | Send
 	Var     int      `json:"var"`     // argument value class (see vStr ...): 0 plain, 1 and 2 the corners
 	Set     string   `json:"set"`     // global settings: "" default | unix | unixms | unixmicro | unixnano | durint | dursec | prec3
+	Pre     int      `json:"pre"`     // > 0: a Dict().Str("k", <pre bytes>) built before the event is opened and added first
 	Wr      string   `json:"wr"`      // "" the destination accepts every write | "fail" it fails every write (ErrorHandler: a no-op function)
 }
 
@@ -222,8 +224,23 @@ func applySet(name string) func() {
 // stamp is the clock of Timestamp() and of the context timestamp hook: the time of the current value class
 func stamp() time.Time { return vTime[variant] }
 
+// preDict > 0: a zerolog.Dict() with one string of that length is built BEFORE the event is opened (so the same pooled object
+// is the dictionary on every call) and added first; lengths around 493 make the dictionary's content end exactly at the
+// capacity of its pooled 500-byte buffer, where appending the end marker has to grow it
+var (
+	preDict int
+	preVal  = strings.Repeat("d", 1100)
+)
+
 func runChain(l *zerolog.Logger, ops []func(*zerolog.Event) *zerolog.Event, send bool) {
+	var pre *zerolog.Event
+	if preDict > 0 {
+		pre = zerolog.Dict().Str("k", preVal[:preDict])
+	}
 	e := l.Info()
+	if pre != nil {
+		e = e.Dict("pd", pre)
+	}
 	for _, op := range ops {
 		e = op(e)
 	}
@@ -266,6 +283,7 @@ func main() {
 			}
 		}
 		variant = c.Var % 3
+		preDict = c.Pre
 		zerolog.TimestampFunc = stamp
 		restore := applySet(c.Set)
 		w := &countW{fail: c.Wr == "fail"}
@@ -291,6 +309,12 @@ func main() {
 }
 
 func measureAllocs(l *zerolog.Logger, ops []func(*zerolog.Event) *zerolog.Event, send bool, w *countW, rec map[string]interface{}) {
+	if preDict > 0 {
+		// the capacity boundary is that of a FRESH pooled buffer: two collections empty sync.Pool (and its victim cache), so
+		// the objects this chain warms up with are new ones
+		runtime.GC()
+		runtime.GC()
+	}
 	for i := 0; i < 20; i++ { // warm the pools
 		runChain(l, ops, send)
 	}
